@@ -97,6 +97,14 @@ def histories(ctx):
         h += ["gen 262144"] * 280          # 560 s
         h += ["on 0 62 100", "cc 0 64 127", "off 0 62", "pc 1 3", "on 1 70 100", "on 1 71 100"]
         hs.append(h)
+    # holds that grow old: a pedal-held and a sostenuto-held note aged to just below the 10-minute bound must still not be displaced while
+    # the other chip channels are idle (the held-note penalty shrinks with age: 500000 + kon_ms/2 with kon_ms down to -600000)
+    for i in range(1 if ctx.tier == "quick" else 4):
+        h = ["new 65536 1", "bank " + synth_gen.test_bank(rng, blanks=0, key_on=rng.choice([1, 500, 5000, 65535]))[0].hex(), "alloc %d" % rng.choice([-1, 0, 1])]
+        h += ["cc 0 64 127", "on 0 60 100", "off 0 60", "on 2 64 100", "cc 2 66 127", "off 2 64"]
+        h += ["gen 262144"] * rng.choice([255, 285, 295])          # 510 .. 590 s
+        h += ["pc 1 3", "on 1 70 100", "on 1 71 100", "on 3 72 100"]
+        hs.append(h)
     return hs
 
 
